@@ -7610,6 +7610,8 @@ TraverseSchema::attWildCardIntersection(SchemaAttDef* const resultWildCard,
 
         resultWildCard->resetNamespaceList();
         copyWildCardData(compareWildCard, resultWildCard);
+        // a list wildcard is defined by its namespace list
+        resultWildCard->setNamespaceList(compareWildCard->getNamespaceList());
         return;
     }
 
